@@ -4,7 +4,7 @@ from urllib import parse as _parse
 
 from ..core import rxmodel
 from ..core.loader import AnalysisError
-from ..core.table import extract, grid_compare, inexact_notes
+from ..core.table import memo_shared, extract, grid_compare, inexact_notes
 from ..core.termeval import ev, Raised, CannotEval
 from ..core.values import K, T, Obj, TupleV, ListV, DictV, ExtRef, show
 from .c11 import _netaddr_hook, _v6
@@ -210,7 +210,13 @@ def _host_port(ctx):
     outcomes, _i = extract(world, thunk, setup=_setup({address: 'str'}))
     hosts = ('server01', '1.2.3.4', '::1', '2001:db8::8a2e:370:7334',
              'fe80::1%eth0', 'fe80::1%12', 'fe80::1%25', 'fe80::1%ab1',
-             'host%41')
+             'host%41',
+             # embedded IPv4, dotted zone ids, maximal zone id and spelling
+             '::ffff:192.0.2.1', '64:ff9b::198.51.100.7', '::192.0.2.1',
+             'fe80::1%eth0.100', 'fe80::1%' + 'z' * 15, 'fe80::1%' + 'z' * 16,
+             'fe80:0000:0000:0000:0204:61ff:fe9d:f156%enp3s0',
+             'host.example.org', '1.2.3', 'FE80::1', '::',
+             '::ffff:1.2.3.256')
     addrs = ['', 'server01', '::1', '[::1]', '2001:db8::1']
     for h in hosts:
         esc = '[%s]' % h if _v6(h) else h
@@ -316,6 +322,13 @@ def _params(ctx):
                 rep.undecided('R15.3', key, 'inexact: %s' % (notes,))
                 continue
             o = outcomes[0]
+            shared = memo_shared(outcomes)
+            if shared:
+                rep.check('R15.3', key + ':memoised', False,
+                          'params() hands out the %s kept by the cache of '
+                          '%s: a caller changing it changes what the next '
+                          'call for the same query returns' % (shared[1],
+                                                               shared[0]))
             want = {}
             for k, v in _parse.parse_qsl(q):
                 if collapse or k not in want:
